@@ -224,3 +224,138 @@ Proof.
     unfold outs_of, arrs_of in *. cbn [map concat fst snd]. rewrite !proj_app.
     rewrite <- app_assoc, Hr3, app_assoc, Hq, Hq1, <- app_assoc. reflexivity.
 Qed.
+
+(* ---------------------------------------------------------------- KeyedSingletonHook, per key *)
+Definition upd (last : list (N * N)) (rel : list (N * N * bool)) : list (N * N) :=
+  fold_left (fun (acc : list (N * N)) (e : N * N * bool) => if snd e then insert N.eqb (fst (fst e)) (snd (fst e)) acc else acc) rel last.
+
+Lemma lookup_insert_same k x (l : list (N * N)) : lookup N.eqb k (insert N.eqb k x l) = Some x.
+Proof.
+  induction l as [|[k' v] l IH]; cbn; [rewrite N.eqb_refl; reflexivity|].
+  destruct (N.eqb k k') eqn:E; cbn; [rewrite N.eqb_refl; reflexivity | rewrite E; exact IH].
+Qed.
+
+Lemma lookup_insert_other k k0 x (l : list (N * N)) : k <> k0 ->
+  lookup N.eqb k (insert N.eqb k0 x l) = lookup N.eqb k l.
+Proof.
+  intro Hne. induction l as [|[k' v] l IH]; cbn.
+  - destruct (N.eqb k k0) eqn:E; [apply N.eqb_eq in E; contradiction|reflexivity].
+  - destruct (N.eqb k0 k') eqn:E0; cbn.
+    + apply N.eqb_eq in E0. subst k'.
+      destruct (N.eqb k k0) eqn:E; [apply N.eqb_eq in E; contradiction|reflexivity].
+    + destruct (N.eqb k k'); [reflexivity|exact IH].
+Qed.
+
+(* the hook's last_released map after a decision = the old one updated with the new releases *)
+Lemma ksingle_last : forall (m : list (N * list N)) force r last ds rel m' last' rest nt,
+  ksingle_loop N.eqb force r m last ds = Ok (rel, m', last', rest, nt) -> last' = upd last rel.
+Proof.
+  induction m as [|[k q] m IH]; intros force r last ds rel m' last' rest nt H;
+    cbn [ksingle_loop] in H.
+  - inversion H; subst. reflexivity.
+  - destruct (is_nil q) eqn:En.
+    + destruct (lookup N.eqb k last) as [l|] eqn:El; [|discriminate].
+      inv_bind H as [[[[rel1 m1] last1] rest1] nt1]. inversion H; subst; clear H.
+      apply IH in E. subst. reflexivity.
+    + inv_bind H as [re ds1]. destruct re as [l|].
+      * inv_bind H as [[[[rel1 m1] last1] rest1] nt1]. inversion H; subst; clear H.
+        apply IH in E0. subst. reflexivity.
+      * inv_bind H as [null ds2]. destruct null.
+        -- inv_bind H as [[[[rel1 m1] last1] rest1] nt1]. inversion H; subst; clear H.
+           apply IH in E1. subst. reflexivity.
+        -- inv_bind H as [idx ds3]. destruct (skipn idx q) as [|x qrest] eqn:Es; [discriminate|].
+           inv_bind H as [[[[rel1 m1] last1] rest1] nt1]. inversion H; subst; clear H.
+           apply IH in E2. subst. reflexivity.
+Qed.
+
+Definition rvals (k : N) (rel : list (N * N * bool)) : list N := proj k (map fst rel).
+
+Lemma KSplit_snap : forall last (m : list (N * list N)) rel m',
+  KSplit N.eqb last m rel m' -> NoDup (map fst m) ->
+  map fst m' = map fst m /\
+  (forall k, SnapStep (lookup N.eqb k last) (qof k m) (rvals k rel) (lookup N.eqb k (upd last rel)) (qof k m')) /\
+  (forall k, ~ In k (map fst m) -> rvals k rel = [] /\ lookup N.eqb k (upd last rel) = lookup N.eqb k last).
+Proof.
+  induction 1 as [last | last k0 q l m rel m' Hl HK IH | last k0 q m rel m' Hq Hl HK IH
+                  | last k0 q sk x q' m rel m' Hq HK IH]; intro Hnd.
+  - repeat split; try reflexivity. intro k. cbn. apply SS_idle.
+  - cbn [map fst] in Hnd. inversion Hnd as [|y t Hnin Hnd']; subst.
+    destruct (IH Hnd') as (Hk & Hs & Hn). split; [cbn; rewrite Hk; reflexivity|].
+    assert (Hupd : upd last ((k0, l, false) :: rel) = upd last rel) by reflexivity.
+    split.
+    + intro k. rewrite Hupd. unfold rvals, proj, qof. cbn [map fst snd filter concat].
+      destruct (N.eqb k0 k) eqn:E.
+      * apply N.eqb_eq in E. subst k0. destruct (Hn k Hnin) as [Hr Hlk].
+        fold (qof k m) (qof k m'). rewrite (qof_notin k m Hnin).
+        rewrite (qof_notin k m') by (rewrite Hk; exact Hnin).
+        cbn [map snd]. fold (proj k (map fst rel)). fold (rvals k rel). rewrite Hr, Hlk, Hl, !app_nil_r.
+        apply SS_old.
+      * apply Hs.
+    + intros k Hnk. rewrite Hupd. unfold rvals, proj. cbn [map fst snd filter].
+      destruct (N.eqb k0 k) eqn:E; [apply N.eqb_eq in E; subst; exfalso; apply Hnk; left; reflexivity|].
+      apply Hn. intro Hin. apply Hnk. right. exact Hin.
+  - cbn [map fst] in Hnd. inversion Hnd as [|y t Hnin Hnd']; subst.
+    destruct (IH Hnd') as (Hk & Hs & Hn). split; [cbn; rewrite Hk; reflexivity|]. split.
+    + intro k. unfold qof. cbn [map fst snd concat]. destruct (N.eqb k0 k) eqn:E.
+      * apply N.eqb_eq in E. subst k0. destruct (Hn k Hnin) as [Hr Hlk].
+        fold (qof k m) (qof k m'). rewrite (qof_notin k m Hnin).
+        rewrite (qof_notin k m') by (rewrite Hk; exact Hnin).
+        rewrite Hr, Hlk, Hl, !app_nil_r. apply SS_null.
+      * apply Hs.
+    + intros k Hnk. apply Hn. intro Hin. apply Hnk. right. exact Hin.
+  - cbn [map fst] in Hnd. inversion Hnd as [|y t Hnin Hnd']; subst.
+    destruct (IH Hnd') as (Hk & Hs & Hn). split; [cbn; rewrite Hk; reflexivity|].
+    assert (Hupd : upd last ((k0, x, true) :: rel) = upd (insert N.eqb k0 x last) rel) by reflexivity.
+    split.
+    + intro k. rewrite Hupd. unfold rvals, proj, qof. cbn [map fst snd filter concat].
+      destruct (N.eqb k0 k) eqn:E.
+      * apply N.eqb_eq in E. subst k0. destruct (Hn k Hnin) as [Hr Hlk].
+        fold (qof k m) (qof k m'). rewrite (qof_notin k m Hnin).
+        rewrite (qof_notin k m') by (rewrite Hk; exact Hnin).
+        cbn [map snd]. fold (proj k (map fst rel)). fold (rvals k rel).
+        rewrite Hr, Hlk, lookup_insert_same, !app_nil_r. apply SS_new.
+      * specialize (Hs k). rewrite lookup_insert_other in Hs
+          by (intro Heq; subst; rewrite N.eqb_refl in E; discriminate).
+        exact Hs.
+    + intros k Hnk. rewrite Hupd. unfold rvals, proj. cbn [map fst snd filter].
+      destruct (N.eqb k0 k) eqn:E; [apply N.eqb_eq in E; subst; exfalso; apply Hnk; left; reflexivity|].
+      destruct (Hn k) as [Hr Hlk]; [intro Hin; apply Hnk; right; exact Hin|].
+      split; [exact Hr|]. rewrite Hlk. apply lookup_insert_other.
+      intro Heq; subst; rewrite N.eqb_refl in E; discriminate.
+Qed.
+
+Lemma traj_ksingle_straj : forall tr m last h' k,
+  Traj (HKSingle m None last) tr h' -> NoDup (map fst m) ->
+  STraj (lookup N.eqb k last) (qof k m)
+        (map (fun ao => (proj k (fst ao), proj k (snd ao))) tr).
+Proof.
+  induction tr as [|[arr out] r IH]; intros m last h' k HT Hnd;
+    inversion HT as [|hh aa hh' oo rr hh'' H2 H5]; subst; [constructor|].
+  cbn [push] in H2. destruct H2 as (f & d & h1 & nt & d' & flag & Ha & Hr). cbn [auto] in Ha.
+  inv_bind Ha as [[[[rel m1] last1] ds'] nt']. inversion Ha; subst. cbn in Hr. inversion Hr; subst.
+  unfold decide_ksingle in E. pose proof (ksingle_last _ _ _ _ _ _ _ _ _ _ E) as ->.
+  apply ksingle_sound in E. destruct E as [HK _].
+  destruct (push_keyed_keys arr m Hnd) as [Hnd1 Hq1].
+  destruct (KSplit_snap _ _ _ _ HK Hnd1) as (Hkeys & Hs & _).
+  cbn [map fst snd]. econstructor.
+  - specialize (Hs k). rewrite Hq1 in Hs. exact Hs.
+  - eapply IH; [exact H5 | rewrite Hkeys; exact Hnd1].
+Qed.
+
+(* C31 snapshots, KeyedSingletonHook: for EVERY key the released versions never go back *)
+Theorem traj_keyed_snapshot_mono : forall tr m last h' k,
+  Traj (HKSingle m None last) tr h' -> NoDup (map fst m) ->
+  StronglySorted N.lt (olist (lookup N.eqb k last) ++ qof k m ++ proj k (arrs_of tr)) ->
+  StronglySorted N.le (proj k (outs_of tr)).
+Proof.
+  intros tr m last h' k HT Hnd Hwf. pose proof (traj_ksingle_straj _ _ _ _ k HT Hnd) as HS.
+  apply straj_mono in HS.
+  - destruct HS as [HS _]. rewrite map_map in HS. cbn [snd] in HS.
+    assert (Hp : forall l : list (list (N * N)), proj k (concat l) = concat (map (proj k) l)).
+    { induction l as [|a l IHl]; [reflexivity|]. cbn [concat map]. rewrite proj_app, IHl. reflexivity. }
+    unfold outs_of. rewrite Hp, map_map. exact HS.
+  - rewrite map_map. cbn [fst].
+    assert (Hp : forall l : list (list (N * N)), proj k (concat l) = concat (map (proj k) l)).
+    { induction l as [|a l IHl]; [reflexivity|]. cbn [concat map]. rewrite proj_app, IHl. reflexivity. }
+    unfold arrs_of in Hwf. rewrite Hp, map_map in Hwf. exact Hwf.
+Qed.
